@@ -138,7 +138,8 @@ func (m *Model) PullPositions(ctx context.Context, ops ...resource.ReadOption) <
 			positions.Preset, _ = m.presetForValue(positions.States)
 
 			// projection and filtering
-			responseFilter.Filter(positions)
+			// the states are the stored messages, they must not be filtered in place
+			positions = responseFilter.FilterClone(positions).(*traits.OpenClosePositions)
 			if eq(last, positions) {
 				continue
 			}
